@@ -170,7 +170,7 @@ PROPS = {
     "C07": {
         "lean": ["GldapModel.Props.C07"], "audit": "GldapModel/Audit/C07.lean",
         "inventory": LIFECYCLE_FUNCS + ["Mux.serve", "ResponseWriter.Write"],
-        "streams": [{"stream": "c07", "n_quick": 21, "n_thorough": 420, "timeout_quick": 900, "timeout_thorough": 6000}],
+        "streams": [{"stream": "c07", "n_quick": 23, "n_thorough": 460, "timeout_quick": 900, "timeout_thorough": 6000}],
         "trusted": RUNTIME_TRUST,
         "assumptions": ["partial: stack exhaustion in the third-party BER reader on deeply nested input is a fatal error no recover can catch; it is outside the model and recorded as a known finding"],
     },
